@@ -4,7 +4,7 @@
      small d    payload shorter than 2^31 bytes    ps_ok ps    per-sector progress is 0 or >= 16 (header atomic)
      old_ok F   the old file is absent/empty or has at least the 16 header bytes
      0 < now    the clock at load time is positive *)
-From CppcmsV Require Import Base.Tac Base.Sweep C18.Defs C18.Proofs C18.Crash C18.History C18.Sid C18.Full C18.Link C18.Burst C18.AnyOld C18.Planted C18.Clock C18.ShortWrite C18.ShortRead C18.Transparent C18.CrcCalc C18.LinkSid C18.Examples gen.Gen_crc gen.Gen_C18_sid.
+From CppcmsV Require Import Base.Tac Base.Sweep C18.Defs C18.Proofs C18.Crash C18.History C18.Sid C18.Full C18.Link C18.Burst C18.AnyOld C18.Planted C18.Clock C18.ShortWrite C18.ShortRead C18.Transparent C18.CrcCalc C18.LockDefs C18.Locks C18.LocksGen C18.LinkSid C18.Examples gen.Gen_crc gen.Gen_C18_sid gen.Gen_C18_locks.
 Local Open Scope N_scope.
 
 (* ---- 1. crash safety: every crash state of every save over every old file ----
@@ -496,3 +496,74 @@ Example C18_link_sid_nonvacuous :
   g_c18_low_x_digit 102 = true /\ g_c18_low_x_digit 103 = false /\ g_c18_low_x_digit 70 = false /\ g_c18_low_x_digit 225 = false /\
   valid_sid_gen (73 :: nmA) = Some nmA.
 Proof. repeat split; vm_compute; reflexivity. Qed.
+
+(* ---- 8. lock discipline.  g_lock_table is regenerated on every run from src/session_posix_file_storage.cpp: for save / load /
+   remove / gc (helpers inlined) every system call on the session file with the number of the locked_file object inside whose
+   lifetime it is made (0 = outside).  locked_file takes the per-sid mutex (and the fcntl lock) before its open and releases after its
+   close (its text is tied by hash).  Moving an access out of its scope breaks these theorems before any run finds the race ---- *)
+Theorem C18_locks_all_under_lock : all_locked g_lock_table = true.
+Proof. exact locks_all_under_lock. Qed.
+Print Assumptions C18_locks_all_under_lock.
+
+Theorem C18_locks_all_under_lock_spec : forall nm l a s, In (nm, l) g_lock_table -> In (a, s) l -> s <> 0%nat.
+Proof. exact (all_locked_spec g_lock_table locks_all_under_lock). Qed.
+Print Assumptions C18_locks_all_under_lock_spec.
+
+Theorem C18_locks_decide_then_act : one_scope g_lock_table = true.
+Proof. exact locks_decide_then_act. Qed.
+Print Assumptions C18_locks_decide_then_act.
+
+Theorem C18_locks_save_atomic : writes_one_scope (lookup_entry nm_save g_lock_table) = true.
+Proof. exact locks_save_atomic. Qed.
+Print Assumptions C18_locks_save_atomic.
+
+(* two actors on one sid - gc, and a request that loads and then saves a live record - in EVERY interleaving at the granularity the
+   table gives, from every file state (absent / created without header / stamp past / stamp not past): gc never unlinks a record
+   that is live at the time of the unlink, and the saved session is there afterwards *)
+Theorem C18_locks_gc_race_free : forall f m,
+  In m (merges (gc_prog g_lock_table) (rq_prog g_lock_table)) ->
+  removed_live (run_schedule m (init_st f)) = false /\ file (run_schedule m (init_st f)) = FLive.
+Proof. exact locks_gc_race_free. Qed.
+Print Assumptions C18_locks_gc_race_free.
+
+(* the argument in general, for ANY table: if gc's accesses form one atomic section and load's accesses form one atomic section (which is
+   the case when all of them lie in one non-zero lock scope), nobody unlinks a record that is live at the time of the unlink, in every
+   interleaving from every state - whatever the sections contain *)
+Theorem C18_locks_one_section_race_free : forall (t : list entry) (f : fstate) m,
+  (List.length (sections (lookup_entry nm_gc t)) <= 1)%nat ->
+  (List.length (sections (lookup_entry nm_load t)) <= 1)%nat ->
+  In m (merges (gc_prog t) (rq_prog t)) ->
+  removed_live (run_schedule m (init_st f)) = false.
+Proof. exact one_section_race_free. Qed.
+Print Assumptions C18_locks_one_section_race_free.
+
+Theorem C18_locks_same_scope_one_section : forall s l, s <> 0%nat ->
+  Forall (fun an : acc * nat => snd an = s) l -> (List.length (sections l) <= 1)%nat.
+Proof. exact same_scope_one_section. Qed.
+Print Assumptions C18_locks_same_scope_one_section.
+
+(* non-vacuity: the same model refutes tables that break the discipline - the stamp read outside the lock (the seeded change), the read
+   and the unlink under two separate lock scopes (every access locked, decision stale), and a save that writes outside its lock scope *)
+Theorem C18_locks_refuted_unlocked_read :
+  all_locked t_gc_unlocked_read = false /\ one_scope t_gc_unlocked_read = false /\
+  exists m, In m (merges (gc_prog t_gc_unlocked_read) (rq_prog t_gc_unlocked_read)) /\
+            removed_live (run_schedule m (init_st FDead)) = true /\ file (run_schedule m (init_st FDead)) = FAbsent.
+Proof. exact locks_refuted_unlocked_read. Qed.
+Print Assumptions C18_locks_refuted_unlocked_read.
+
+Theorem C18_locks_refuted_two_scopes :
+  all_locked t_gc_two_scopes = true /\ one_scope t_gc_two_scopes = false /\ race_free t_gc_two_scopes = false.
+Proof. exact locks_refuted_two_scopes. Qed.
+Print Assumptions C18_locks_refuted_two_scopes.
+
+Theorem C18_locks_refuted_unlocked_write :
+  all_locked t_save_unlocked_write = false /\ writes_one_scope (lookup_entry nm_save t_save_unlocked_write) = false /\
+  race_free t_save_unlocked_write = false.
+Proof. exact locks_refuted_unlocked_write. Qed.
+Print Assumptions C18_locks_refuted_unlocked_write.
+
+Example C18_locks_nonvacuous :
+  map fst g_lock_table = [nm_save; nm_load; nm_remove; nm_gc] /\
+  length (merges (gc_prog g_lock_table) (rq_prog g_lock_table)) = 3%nat /\
+  In (AUnlink, 1%nat) (lookup_entry nm_gc g_lock_table) /\ In (ARead, 1%nat) (lookup_entry nm_gc g_lock_table).
+Proof. repeat split; vm_compute; tauto. Qed.
